@@ -34,6 +34,8 @@ THEOREMS = [
     "PyTrie.Props.C09.raw_step_with_retry",
     "PyTrie.Props.C09.raw_walk_finds_stable_and_sound",
     "PyTrie.Props.C09.raw_walk_never_stuck",
+    "PyTrie.Props.C09.walk_over_history",
+    "PyTrie.Props.C09.walk_over_history_never_stuck",
     "PyTrie.Props.NonVacuity6.hist5_versions_p",
     "PyTrie.Props.NonVacuity6.hist5_versions_consistent",
     "PyTrie.Props.NonVacuity6.read_v5_ok",
